@@ -191,6 +191,48 @@ template <class Ad> void mathfn(const char* name, uint64_t seed, int n) {
   }
 }
 
+// ---- C17: mutators and accessors expose exactly the stored value (full-precision values of the numeric type) ----
+template <class Ad> void mutators(const char* name, uint64_t seed, int n) {
+  using Q = typename Ad::Q; using T = typename Ad::T; constexpr int N = Ad::N; std::mt19937_64 g(seed * 97 + N); long set_bad = 0, mut_bad = 0, ctor_bad = 0, cnt = 0; long double wit = 0;
+  auto rnd = [&]() { T m = (T)(1.0L + (long double)(g() >> 11) / (long double)(1ULL << 53)); if (sizeof(T) > 8) m += (T)std::ldexp((long double)(g() & 2047), -63); int span = std::numeric_limits<T>::max_exponent - 2; return std::ldexp(m, (int)(g() % (unsigned)(2 * span)) - span) * ((g() & 1) ? 1 : -1); };
+  for (int t = 0; t < n; t++) { T c[9], d[9]; for (int i = 0; i < N; i++) { c[i] = rnd(); d[i] = rnd(); }
+    Q q = Ad::make(c); T got[9]; getc(q, got); for (int i = 0; i < N; i++) if (!biteq(got[i], c[i])) ctor_bad++;
+    if constexpr (has_set<Q, T>::value) { Q src = Ad::make(d); q.SetValue(src.Value()); getc(q, got); for (int i = 0; i < N; i++) if (!biteq(got[i], d[i])) { if (!set_bad) wit = (long double)d[i]; set_bad++; } }
+    if constexpr (has_mutable<Q, T>::value) { Q src = Ad::make(c); q.MutableValue() = src.Value(); getc(q, got); for (int i = 0; i < N; i++) if (!biteq(got[i], c[i])) mut_bad++; }
+    cnt++; }
+  printf("{\"e\":\"Mutator\",\"type\":\"%s\",\"num\":\"%s\",\"n\":%ld,\"ctor_bad\":%ld,\"set_bad\":%ld,\"mutable_bad\":%ld,\"has_set\":%d,\"has_mutable\":%d,\"witness\":\"%La\"}\n", name, NumName<T>::c, cnt, ctor_bad, set_bad, mut_bad,
+         (int)has_set<Q, T>::value, (int)has_mutable<Q, T>::value, wit);
+}
+
+// ---- C15: composite printed / serialised forms ----
+inline std::string jesc(const std::string& s) { std::string o; char b[8]; for (unsigned char c : s) { if (c == '"' || c == '\\') { o += '\\'; o += (char)c; } else if (c < 0x20) { snprintf(b, 8, "\\u%04x", c); o += b; } else o += (char)c; } return o; }
+template <class Q, class = void> struct has_unit : std::false_type {};
+template <class Q> struct has_unit<Q, std::void_t<decltype(Q::Unit())>> : std::true_type {};
+// replace, in order, the expected number strings by '#' and the abbreviation by '@'; numbers_ok iff the numeric tokens of the
+// text are exactly the expected strings in declared component order
+inline std::string templ(const std::string& text, const std::vector<std::string>& nums, const std::string& abbr, bool& numbers_ok) {
+  std::string s = text; size_t pa = std::string::npos; if (!abbr.empty()) { pa = s.rfind(abbr); }
+  std::string head = pa == std::string::npos ? s : s.substr(0, pa), tail = pa == std::string::npos ? "" : "@" + s.substr(pa + abbr.size());
+  std::string out; size_t i = 0; size_t k = 0; numbers_ok = true;
+  while (i < head.size()) { unsigned char ch = head[i]; bool start = (isdigit(ch) || ((ch == '-' || ch == '+') && i + 1 < head.size() && isdigit((unsigned char)head[i + 1])));
+    bool delim = i == 0 || !(isalnum((unsigned char)head[i - 1]) || head[i - 1] == '_' || head[i - 1] == '.');
+    if (start && delim) { size_t j = i; if (head[j] == '-' || head[j] == '+') j++; while (j < head.size() && (isdigit((unsigned char)head[j]) || head[j] == '.')) j++;
+      if (j < head.size() && (head[j] == 'e' || head[j] == 'E')) { size_t m = j + 1; if (m < head.size() && (head[m] == '-' || head[m] == '+')) m++; if (m < head.size() && isdigit((unsigned char)head[m])) { while (m < head.size() && isdigit((unsigned char)head[m])) m++; j = m; } }
+      std::string tok = head.substr(i, j - i); if (k >= nums.size() || tok != nums[k]) numbers_ok = false; k++; out += '#'; i = j; continue; }
+    out += (char)ch; i++; }
+  if (k != nums.size()) numbers_ok = false;
+  return out + tail; }
+template <class Ad> void composite(const char* name) {
+  using Q = typename Ad::Q; using T = typename Ad::T; constexpr int N = Ad::N;
+  for (int variant = 0; variant < 3; variant++) {
+    T c[9]; for (int i = 0; i < N; i++) c[i] = variant == 0 ? (T)((i + 1) * 1.25L) * ((i & 1) ? -1 : 1) : variant == 1 ? std::ldexp((T)(1.0L + 0.1L * i), (i * 7) % 40 - 20) : (T)(i == 0 ? 0 : -(T)0.001L * (i + 2));
+    Q q = Ad::make(c); T v[9]; getc(q, v); std::vector<std::string> nums; for (int i = 0; i < N; i++) nums.push_back(PhQ::Print(v[i]));
+    std::string abbr; bool dim = false; if constexpr (has_unit<Q>::value) { abbr = std::string(PhQ::Abbreviation(Q::Unit())); dim = true; }
+    std::ostringstream os; os << q; const char* forms[5] = {"Print", "JSON", "XML", "YAML", "stream"}; std::string texts[5] = {q.Print(), q.JSON(), q.XML(), q.YAML(), os.str()};
+    for (int f = 0; f < 5; f++) { bool ok; std::string t = templ(texts[f], nums, abbr, ok);
+      printf("{\"e\":\"Composite\",\"type\":\"%s\",\"num\":\"%s\",\"form\":\"%s\",\"dimensional\":%s,\"numbers_ok\":%s,\"template\":\"%s\",\"raw\":\"%s\"}\n", name, NumName<T>::c, forms[f], dim ? "true" : "false", ok ? "true" : "false", jesc(t).c_str(), f == 1 ? jesc(texts[f]).c_str() : ""); } }
+}
+
 // ---- C17: layout facts ----
 template <class Ad> void layout(const char* name) {
   using Q = typename Ad::Q; using T = typename Ad::T; constexpr int N = Ad::N;
